@@ -54,6 +54,7 @@ type Frame struct {
 	loopOrd  map[*ssa.BasicBlock]int
 	decEntry map[*ssa.BasicBlock]string
 	loopPre  map[*ssa.BasicBlock]*State
+	reachDone map[string]bool
 	parent   *Frame
 }
 
@@ -108,6 +109,9 @@ type Closure struct {
 }
 
 type GlobalFn struct{ name string }
+
+// ParamFn: a function-typed parameter of the function under verification.
+type ParamFn struct{ name string }
 
 type IterState struct {
 	cell *Cell
@@ -465,6 +469,33 @@ func (x *Exec) seqEq(a, b []string, aLit, bLit *StrLit) string {
 		tSel(a[0], tAdd(a[1], i)) + " " + tSel(b[0], tAdd(b[1], i)) + "))))"
 }
 
+// strEq: Go's == on strings. Against a literal the comparison is spelled out
+// byte by byte. Between two unknown strings it is equality of an uninterpreted
+// content code strid_(arr, off, len): every proof holds for all
+// interpretations of strid_, in particular for the real one (an injective
+// encoding of the content), so this is sound; the only content facts exported
+// are consequences of equal codes (equal length, equal first byte).
+func (x *Exec) strEq(a, b *Val) string {
+	la, lb := litOf(a), litOf(b)
+	if la != nil || lb != nil {
+		return x.seqEq(a.L, b.L, la, lb)
+	}
+	if a.L[0] == b.L[0] && a.L[1] == b.L[1] {
+		return tEq(a.L[2], b.L[2])
+	}
+	ia, ib := x.strID(a), x.strID(b)
+	eq := tEq(ia, ib)
+	if eq != "true" && eq != "false" {
+		x.vc.assume(tImp(eq, tAnd(tEq(a.L[2], b.L[2]), tImp(tCmp(">", a.L[2], "0"), tEq(tSel(a.L[0], a.L[1]), tSel(b.L[0], b.L[1]))))))
+	}
+	return eq
+}
+
+func (x *Exec) strID(v *Val) string {
+	x.declareFun("strid_", "((Array Int Int) Int Int) Int")
+	return "(strid_ " + v.L[0] + " " + v.L[1] + " " + v.L[2] + ")"
+}
+
 func litOf(v *Val) *StrLit {
 	if l, ok := v.X.(*StrLit); ok {
 		return l
@@ -484,7 +515,7 @@ func (x *Exec) valEq(st *State, a, b *Val) string {
 	switch u := under(t).(type) {
 	case *types.Basic:
 		if u.Info()&types.IsString != 0 {
-			return x.seqEq(a.L, b.L, litOf(a), litOf(b))
+			return x.strEq(a, b)
 		}
 		return tEq(a.L[0], b.L[0])
 	case *types.Struct:
